@@ -292,6 +292,11 @@ func VerifH_OrderTopLevel() {
 	if verifrt.Bound("MENU") == 1 {
 		menu = verifMenuMacro
 	}
+	if verifrt.Bound("MENU") == 2 {
+		// user types with allOf chains (root and nested), enums, and a response using a type: real schema library
+		verifLetters = 3
+		menu = []int{tTypeAllOf, tTypeNested, tTypeObj, tEnum, tGetPath, tRespRef}
+	}
 	_, lines := verifDocLines(menu, k, true)
 	if !refResolveLines(lines) {
 		verifrt.Stop()
@@ -355,9 +360,14 @@ func VerifH_OrderTopLevel() {
 		return
 	}
 	s0, s1 := verifSig(core0.catalog), verifSig(core1.catalog)
-	verifrt.Assert("C10.same-size", len(s0) == len(s1))
-	// every entry line of one catalog occurs in the other (entries are only reordered)
+	// every entry line of one catalog occurs in the other (entries are only reordered);
+	// the lists of used types are compared under their own assertion id
+	n0, n1 := 0, 0
 	for _, l := range s0 {
+		if strings.Contains(l, " usesType ") {
+			continue
+		}
+		n0++
 		found := false
 		for _, m := range s1 {
 			if l == m {
@@ -365,6 +375,24 @@ func VerifH_OrderTopLevel() {
 			}
 		}
 		verifrt.Assert("C10.same-entries", found)
+	}
+	for _, m := range s1 {
+		if !strings.Contains(m, " usesType ") {
+			n1++
+		}
+	}
+	verifrt.Assert("C10.same-size", n0 == n1)
+	for _, l := range s0 {
+		if !strings.Contains(l, " usesType ") {
+			continue
+		}
+		found := false
+		for _, m := range s1 {
+			if l == m {
+				found = true
+			}
+		}
+		verifrt.Assert("C10.same-used-types", found)
 	}
 	verifrt.Reach("C10.accepted", true)
 }
